@@ -14,7 +14,7 @@ package cache
 //@   ghost nNX int = 0
 //@   oncall Set: nSet = nSet + 1
 //@   oncall SetIfAbsent: nNX = nNX + 1
-//@   modifies *
+//@   modifies nothing
 //@   ensures [C19:replace-unless-setnx] (setNX ? nNX == 1 && nSet == 0 : nSet == 1 && nNX == 0)
 //@   callsite SetIfAbsent: [C07:entry-holds-what-was-stored] entryHolds(arg2, arg1, k, v, storedTime, expireTime)
 //@   callsite Set: [C07:entry-holds-what-was-stored] entryHolds(arg2, arg1, k, v, storedTime, expireTime)
@@ -40,7 +40,7 @@ package cache
 //@   ghost ge *cacheEntry = nil
 //@   aftercall Get: ge = ret0
 //@   assumecall Get: ret1 ==> ret0 != nil
-//@   modifies *
+//@   modifies nothing
 //@   ensures [C20:private-copy] v != nil ==> fresh(v)
 //@   ensures [C07:key-rechecked] v != nil ==> ge != nil && len(ge.k) == len(k) && forall(j, 0, len(k), ge.k[j] == k[j])
 //@   ensures [C07:value-of-that-entry] v != nil ==> ge.v != nil && len(v) == len(ge.v) && bytesEq(v, 0, ge.v, 0, len(v)) && storedTime == ge.storedTime && expireTime == ge.expireTime
